@@ -53,6 +53,20 @@ def run(ctx):
                     fbr = np.array(trial._calc_force_bias_restricted(jnp.array(Wa), ham, wd))
                     lines.append(wf.sd_line_rhfr(plain, Ca, Wa))
                     refs.append((kind + " restricted", fbr, {"norb": norb, "nelec": ne}))
+    # ghf: the same Lean model in the doubled (spin-orbital) space, second spin block empty
+    # (the interpreted exact model costs ~k! per determinant: two electrons in the quick tier, three in the thorough one)
+    for norb, ne in (((3, (1, 1)), (2, (1, 1))) if ctx.tier == "quick" else ((3, (1, 1)), (2, (1, 1)), (3, (2, 1)))):
+        try:
+            trial, wd, desc = trials.make("ghf", rng, norb, ne)
+            hamg0, plaing = trials.make_ham(rng, norb, nchol=2, spin_dependent=True)
+            hamg = trial._build_measurement_intermediates(dict(hamg0), wd)
+            for _ in range(2):
+                Wa, Wb = wf.complex_walker(rng, norb, ne[0]), wf.complex_walker(rng, norb, ne[1])
+                val = np.array(trial._calc_force_bias(jnp.array(Wa), jnp.array(Wb), hamg, wd))
+                lines.append(wf.ghf_as_doubled(plaing, np.array(wd["mo_coeff"]), Wa, Wb))
+                refs.append(("ghf unrestricted", val, {"norb": norb, "nelec": ne}))
+        except Exception as ex:
+            spec_fail.append(("ghf", "ghf model case can be built", {"error": repr(ex)[:300]}))
     mism = []
     try:
         model = common.lean_run("SD", lines)
@@ -61,6 +75,9 @@ def run(ctx):
             want = wf.parse_list(d["fb"]) if "fb" in d else None
             if want is None or len(want) != len(fb) or not all(wf.close(a, b, 1e-9) for a, b in zip(fb, want)):
                 mism.append({"entry": name, "impl": [str(x) for x in fb], "model": d.get("fb"), **det})
+                # the Lean model is PROVED equal to the mixed estimator: a disagreement on a concrete input is a concrete failing input
+                spec_fail.append((name, "implementation equals the proved closed form of the mixed estimator on this input (theorem + exact evaluation at Q(i))",
+                                  {**det, "impl": str(mism[-1].get("impl"))[:300], "model": str(mism[-1].get("model"))[:300], "protocol_line": lines[k][:4000]}))
     except Exception as ex:
         ctx.broken.append({"kind": "driver", "error": str(ex)[-1500:]})
     for kind, norb, ne in wf.cases(rng, list(trials.KINDS), ctx.tier):
